@@ -33,6 +33,9 @@ func runC04(c *Ctx) {
 	c04R3(c, p, "C04.R3")
 	c04R4(c, p, "C04.R4")
 	c04R5(c, p, "C04.R5")
+	// the en-passant key is part of the hash: whether the square is recorded (and hashed) is decided by CanEnPassant
+	c02R2(c, p, "C04.R6.ep-recorded")
+	c02R7(c, p, "C04.R6.ep-capturable")
 }
 
 var placementWriters = map[string]string{
